@@ -209,6 +209,8 @@ def check(run):
     run.assumptions += ["'keyed' = a policy type (derived from policy::abstract_policy) occurs among the template arguments of an enclosing specialisation",
                         "writes through pointers registered in a policy's own catalogs (static_vptr, slots_strides_ptr) are attributed to that policy by construction of the registration objects (C18-pair checks the constructors)",
                         "error-handler identity: Q::error / Q::call_error are distinct objects from S::error (C14-rebind); what a user handler does is outside"]
+    from .. import crules as _cr
+    _cr.facet_rules(run, "C14-facets")
     return run.finish(level="other", explanation="AST rule over all static-storage variables and all instantiated functions of a unit that holds nine policies over "
                       "the same classes (keys = policy types in enclosing template arguments), IR effect-set disjointness between one policy's call path and "
                       "another policy's update, and type-checker witnesses for rebind/replace/remove.",
